@@ -95,6 +95,21 @@ def one(ctx, i):
                 tol = 1e-6 * abs(raw)
             if not abs(real[name] - exp) <= tol + 1e-300:
                 ctx.violation(f'two-locus:{name}', cfg=cfg, stat=name, expected=exp, observed=real[name], tolerance=tol, end_time=float(T))
+    # ---- the correlation routes are the covariance over the marginal standard deviations, for every r and every n_unlinked
+    # (at r = 0 with unlinked lineages the trees differ: the correlation is NOT 1)
+    with C.LogCapture() as lcc:
+        for nm, d in (('th', th), ('tbl', tbl)):
+            cv = np.array(d.loci.cov, dtype=float)
+            cr = np.array(d.loci.corr, dtype=float)
+            gc = float(d.loci.get_corr(0, 1))
+            if cv[0, 0] > 1e-12 and cv[1, 1] > 1e-12:
+                want = cv[0, 1] / math.sqrt(cv[0, 0] * cv[1, 1])
+                for route, got in (('corr[0,1]', cr[0, 1]), ('corr[1,0]', cr[1, 0]), ('get_corr(0,1)', gc)):
+                    if not abs(got - want) <= 1e-9:
+                        ctx.violation(f'corr-route:{nm}', cfg=cfg, route=route, expected=float(want), observed=float(got),
+                                      cov=cv.tolist())
+                        break
+                ctx.count('corr-routes')
     # ---- direct oracle: marginals are the single-locus coalescent, for every r
     cfg1 = dict(cfg); cfg1['loci'] = 1; cfg1.pop('r'); cfg1.pop('n_unl')
     c1 = conv.make_coalescent(pg, cfg1)
